@@ -8,33 +8,44 @@ corresponding theorem fail. Nothing is specific to a sample of inputs: election 
 all 2^128 values, selectors over every case.
 -/
 import Gribi.Gen.CheckFlushRequest
+import Gribi.Gen.Flush
 import Gribi.Props.GenEquiv.Base
 namespace Gribi.GenEquiv
 open Gribi Gribi.Gen
 
 /-! ### checkFlushRequest -/
 
+def idOf : Server.FlushElec → Option U128
+  | .id e => some e
+  | _ => none
+
 /-- a FlushRequest as the getters show it -/
 def reqOf (ni : Server.NiSel) (el : Server.FlushElec) : FlushRequest :=
-  { NetworkInstance := if ni = .unset then none else some (),
+  { NetworkInstance := (match ni with | .unset => none | .all => some .All | .name n => some (.Name n)),
     Override := if el = .override then some () else none,
-    Id := match el with | .id e => some e | _ => none }
+    Id := idOf el }
 
 /-- `Server.checkFlushRequest` (as the source says now) = the model's decision table
 `checkFlush`, for every instance selector, election field and election state. -/
 theorem gen_checkFlush (cur : Option U128) (ni : Server.NiSel) (el : Server.FlushElec) :
     Gen.checkFlushRequest (some (reqOf ni el)) cur = (Server.checkFlush cur ni el).map fstatusOf := by
-  by_cases hni : ni = .unset
+  have hN : ni = .unset ∨ ∃ x, (reqOf ni el).NetworkInstance = some x := by
+    cases ni <;> simp [reqOf]
+  rcases hN with hni | ⟨x, hx⟩
   · simp [Gen.checkFlushRequest, reqOf, Server.checkFlush, hni, fstatusOf, codeOf, fdetOf]
-  · cases el with
-    | override => simp [Gen.checkFlushRequest, reqOf, Server.checkFlush, hni]
+  · have hni : ¬ ni = .unset := by intro h; subst h; simp [reqOf] at hx
+    have hO : (reqOf ni el).Override = if el = .override then some () else none := rfl
+    have hI : (reqOf ni el).Id = idOf el := rfl
+    simp only [Gen.checkFlushRequest, hx, hO, hI, idOf]
+    cases el with
+    | override => simp [Server.checkFlush, hni]
     | unset =>
-      cases cur <;> simp [Gen.checkFlushRequest, reqOf, Server.checkFlush, hni, fstatusOf, codeOf, fdetOf]
+      cases cur <;> simp [Server.checkFlush, hni, fstatusOf, codeOf, fdetOf]
     | id e =>
       cases cur with
-      | none => simp [Gen.checkFlushRequest, reqOf, Server.checkFlush, hni, fstatusOf, codeOf, fdetOf]
+      | none => simp [Server.checkFlush, hni, fstatusOf, codeOf, fdetOf]
       | some c =>
-        simp only [Gen.checkFlushRequest, reqOf, Server.checkFlush, hni, if_false, u128_eta]
+        simp only [Server.checkFlush, hni, if_false, u128_eta, reduceCtorEq]
         by_cases hz : e.isZero = true
         · have : equals (u128 0 0) e = true := (equals_iff _ _).mpr ((isZero_iff e).mp hz).symm
           simp [hz, this, fstatusOf, codeOf, fdetOf]
@@ -50,6 +61,52 @@ theorem gen_checkFlush (cur : Option U128) (ni : Server.NiSel) (el : Server.Flus
           · have : U128.lt e c = false := by
               rw [Bool.eq_false_iff]; intro hc'; have := (C05.u128_lt_iff _ _).mp hc'; omega
             simp [hx, this]
+
+/-! ### Server.Flush -/
+
+/-- the instances a Flush request names -/
+def targets (s : Server) : Server.NiSel → List String
+  | .all => s.rib.nis
+  | .name n => [n]
+  | .unset => []
+
+/-- `Server.Flush` (as the source says now) composed with `checkFlushRequest` (as the source says
+now) = the model's `Server.flush`, for every request and server state: a request the decision
+table rejects is answered with that status and **the RIB is not called**; a named instance the
+RIB does not know is answered InvalidArgument / INVALID_NETWORK_INSTANCE without a RIB call;
+otherwise the RIB's Flush is called once, with exactly the named instance, or with all the
+instances the RIB knows, and the answer is OK. -/
+theorem gen_flush (s : Server) (ni : Server.NiSel) (el : Server.FlushElec) (niR : Option Unit) :
+    Gen.flush (some (reqOf ni el)) (Gen.checkFlushRequest (some (reqOf ni el)) s.curElec)
+        s.rib.nis niR (fun n => s.rib.hasNI n) none =
+      let res := (s.flush ni el).2.1
+      if res.code = .ok then (some .OK, none, [Eff.flush (targets s ni)])
+      else (none, some (fstatusOf res), []) := by
+  rw [gen_checkFlush]
+  unfold Server.flush
+  cases hc : Server.checkFlush s.curElec ni el with
+  | some r =>
+    have hr : r.code ≠ .ok := by
+      unfold Server.checkFlush at hc
+      repeat' split at hc
+      all_goals first | (cases hc; simp) | (cases hc)
+    simp [Gen.flush, hr]
+  | none =>
+    cases ni with
+    | unset => simp [Server.checkFlush] at hc
+    | all => simp [Gen.flush, reqOf, targets]
+    | name n =>
+      by_cases hk : s.rib.hasNI n = true
+      · simp [Gen.flush, reqOf, targets, hk]
+      · simp [Gen.flush, reqOf, targets, hk, fstatusOf, codeOf, fdetOf]
+
+/-- an error of the RIB's Flush is reported as Internal -/
+theorem gen_flush_internal (s : Server) (niR : Option Unit) (e : Status) :
+    Gen.flush (some (reqOf .all .override)) none s.rib.nis niR (fun n => s.rib.hasNI n) (some e) =
+      (none, some ⟨.Internal, .none⟩, [Eff.flush s.rib.nis]) := by
+  simp [Gen.flush, reqOf]
+
+theorem gen_flush_translated : Gen.flush_problem = none := rfl
 
 theorem gen_checkFlush_translated : Gen.checkFlushRequest_problem = none := rfl
 
